@@ -25,6 +25,7 @@ def make_cases_for(tier, seed):
         yield from (((("A",) + cid), p) for cid, p in G.length_programs(seed, compatible_cases=True, max_len=6 if quick else 9))
         yield from (((("A",) + cid), p) for cid, p in G.switch_programs(seed, compatible_cases=True, big=not quick))
         yield from (((("A",) + cid), p) for cid, p in G.cross_programs(seed, compatible_cases=True))
+        yield from (((("A",) + cid), p) for cid, p in observed_programs())
         # (B) other layouts of flow graphs: all well-formed routine sets
         for iv, shape in enumerate(GS.shapes(SSB_KINDS_QUICK, 3 if quick else 4, 2, wellformed=True)):
             yield ("B", iv % 5 if iv % 11 else 99, shape), shape
@@ -51,8 +52,8 @@ def rule_text(tier):
             + ("3" if quick else "4") + " ops in <= 2 routines over {op, branch, jump, return, end, call, switch, case} (every jump "
             "target, every split, unreachable ops, cross-routine jumps, routines starting with a Jump), single routines with "
             + ("4" if quick else "4-5") + " ops over {op, branch, jump, end}, sets with context ops / hold, and (F) 38 sets that take the "
-            "SsbScript fallback and carry one parameter value of every kind (negative position-mark coordinates, strings with quotes / new lines ..) and (V) 35 sets with boolean-like tests "
-            "(debug / edit / variation / performance) on other numbers than 0 and 1 and bit operations on the performance progress list, (R) 7 larger sets that random searches once found failing")
+            "SsbScript fallback and carry one parameter value of every kind (negative position-mark coordinates, strings with quotes / new lines ..) and (V) 62 sets with boolean-like tests "
+            "(debug / edit / variation / performance) on other numbers than 0 and 1 bit operations on the performance progress list and every operator number in the value / variable forms of assignments, conditions and cases, (R) 10 sets beyond the size or kind bounds of (B) that random searches once found failing")
 
 
 def materialise(cid, case):
@@ -103,6 +104,20 @@ def param_values():
 N_FALLBACK_PARAM_SETS = 19 * 2
 
 
+def observed_programs():
+    """Compiler inputs beyond the size bounds of the skeleton families that random searches once found failing."""
+    dbg = A.Cond("special", False, "debug")
+    c1 = A.Cond("op", ("c", "$C"), "==", "int", ("i", 1))
+    x2 = A.Cond("op", ("c", "$X"), "==", "int", ("i", 2))
+    # a loop of tests only, followed by a second loop, inside an if
+    yield ("observed", "two-loops-in-if"), A.Program([A.Routine("def", 0, [
+        A.If([A.IfBranch(False, [x2], [A.While(False, c1, []),
+                                       A.Forever([A.Op("b", []), A.If([A.IfBranch(False, [dbg], [A.Ctrl("end")])], None)])])], None)])])
+    yield ("observed", "two-loops-in-case"), A.Program([A.Routine("def", 0, [
+        A.Switch(A.SwitchHeader("var", ("c", "$S")), [A.SwitchItem(A.CaseHeader("val", ("i", 1)), [
+            A.While(True, c1, []), A.Forever([A.Op("b", []), A.If([A.IfBranch(False, [dbg], [A.Ctrl("return")])], None)])])])])])
+
+
 def special_value_sets():
     """(V) ops whose ExplorerScript form expresses only some parameter values (boolean-like tests with other numbers, bit ops
     on the performance progress list, which has forms of its own)."""
@@ -120,6 +135,14 @@ def special_value_sets():
         out.append([O(1, "flag_SetPerformance", [3, v]), O(4, "End", [])])
         out.append([O(1, "flag_CalcBit", [perf, 3, v]), O(5, "Hold", [])])
         out.append([O(1, "flag_CalcBit", [C("$OTHER"), 3, v]), O(5, "Hold", [])])
+    # ops whose natural spelling belongs to a shorter op (`$V = 5;` is flag_Set, `$V == 5` is Branch), every operator
+    for opr in range(0, 5):
+        out.append([O(1, "flag_CalcValue", [C("$V"), opr, 5]), O(5, "flag_CalcVariable", [C("$V"), opr, C("$W")]), O(9, "Hold", [])])
+    for opr in range(0, 11):
+        out.append([O(1, "BranchValue", [C("$V"), opr, 5, 7]), O(6, "a", []), O(7, "BranchVariable", [C("$V"), opr, C("$W"), 13]), O(12, "b", []),
+                    O(13, "End", [])])
+        out.append([O(1, "Switch", [C("$V")]), O(3, "CaseValue", [opr, 5, 9]), O(7, "CaseVariable", [opr, C("$W"), 11]), O(9, "a", []),
+                    O(11, "End", [])])
     out.append([O(1, "BranchBit", [perf, 3, 6]), O(5, "a", []), O(6, "End", [])])
     out.append([O(1, "BranchBit", [C("$OTHER"), 3, 6]), O(5, "a", []), O(6, "End", [])])
     out.append([O(1, "flag_Set", [perf, 1]), O(4, "flag_CalcValue", [perf, 2, 1]), O(8, "flag_Clear", [perf]), O(10, "Return", [])])
@@ -137,6 +160,10 @@ OBSERVED_SETS = [
     [("BranchBit", ["$B", 3], 3), ("WaitAnimation", [], None), ("Jump", [], 6), ("Branch", ["$V", 1], 6), ("Call", [], 1), ("Jump", [], 6), ("Return", [], None)],
     [("Switch", ["$V"], None), ("Case", [1], 4), ("Case", [2], 6), ("Jump", [], 8), ("a", [], None), ("Jump", [], 8), ("Call", [], 4), ("Jump", [], 8), ("Hold", [], None)],
     [("a", [], None), ("Call", [], 3), ("End", [], None), ("b", [], None), ("Call", [], 0), ("Return", [], None)],
+    # message switches whose default is not the last case op, or that have two
+    [("message_SwitchTalk", ["$M"], None), ("DefaultText", ["str:d"], None), ("CaseText", [1, "str:t"], None), ("Return", [], None)],
+    [("message_SwitchMonologue", ["$M"], None), ("CaseText", [1, "str:t"], None), ("DefaultText", ["str:d"], None), ("DefaultText", ["str:e"], None), ("End", [], None)],
+    [("message_SwitchTalk", ["$M"], None), ("CaseText", [2, "str:u"], None), ("CaseText", [1, "str:t"], None), ("DefaultText", ["str:d"], None), ("Hold", [], None)],
 ]
 
 
@@ -150,7 +177,9 @@ def observed_set(i):
         off += 1 + len(params) + (1 if target is not None else 0)
     ops = []
     for (name, params, target), o in zip(spec, offs):
-        ps = [SsbOpParamConstant(p) if isinstance(p, str) else p for p in params]
+        from explorerscript.ssb_converting.ssb_data_types import SsbOpParamConstString
+        ps = [SsbOpParamConstString(p[4:]) if isinstance(p, str) and p.startswith("str:") else SsbOpParamConstant(p) if isinstance(p, str) else p
+              for p in params]
         if target is not None:
             ps.insert(lts.JUMP_INDEX[name], offs[target])
         ops.append(SsbOperation(o, SsbOpCode(-1, name), ps))
